@@ -318,6 +318,7 @@ type VerifState struct {
 	SentReveal bool
 	Injections int
 	HasAke     bool
+	AkeSSID    []byte // session id of the exchange in progress (not part of VerifSnapString)
 }
 
 // VerifSnapshot returns the protocol-relevant state of a conversation.
@@ -339,6 +340,9 @@ func VerifSnapshot(c *Conversation) VerifState {
 		SentReveal: c.sentRevealSig,
 		Injections: len(c.injections.messages),
 		HasAke:     c.ake != nil,
+	}
+	if c.ake != nil {
+		s.AkeSSID = append([]byte{}, c.ake.ssid[:]...)
 	}
 	if c.version != nil {
 		s.Version = int(c.version.protocolVersion())
